@@ -1325,6 +1325,21 @@ def N_pow(ex, n, a):
     return acc
 
 
+def N_from_bytes(ex, n, a):
+    """uN::from_le_bytes / from_be_bytes on an array of (possibly symbolic) bytes"""
+    arr = deref_all(a[0])
+    t = _int_ty(parse_name(n)[0])
+    if not isinstance(arr, VecV) or t is None: return NotImplemented
+    items = list(arr.items)
+    if n.endswith('from_be_bytes'): items = items[::-1]
+    acc = None
+    for i, b in enumerate(items):
+        term = b if i == 0 else num_arith('Mul', num_cast(b, t[0], False), Num(1 << (8 * i), t[0], False), wrapping=False)
+        term = num_cast(term, t[0], False)
+        acc = term if acc is None else num_arith('Add', acc, term, wrapping=False)
+    return num_cast(acc, t[0], t[1]) if acc is not None else Num(0, t[0], t[1])
+
+
 def N_to_bytes(ex, n, a):
     return Opaque(('bytes_of', a[0].e if isinstance(a[0], Num) else a[0]))
 
@@ -1519,7 +1534,7 @@ METHODS = {
     'saturating_add': [N_saturating('Add')], 'saturating_sub': [N_saturating('Sub')], 'saturating_mul': [N_saturating('Mul')],
     'wrapping_add': [N_wrapping('Add')], 'wrapping_sub': [N_wrapping('Sub')], 'wrapping_mul': [N_wrapping('Mul')],
     'overflowing_add': [N_overflowing('Add')], 'overflowing_sub': [N_overflowing('Sub')], 'overflowing_mul': [N_overflowing('Mul')],
-    'abs_diff': [N_abs_diff], 'pow': [N_pow], 'to_be_bytes': [N_to_bytes], 'to_le_bytes': [N_to_bytes],
+    'abs_diff': [N_abs_diff], 'pow': [N_pow], 'to_be_bytes': [N_to_bytes], 'to_le_bytes': [N_to_bytes], 'from_le_bytes': [N_from_bytes], 'from_be_bytes': [N_from_bytes],
     'from': [N_from], 'try_from': [N_try_from], 'into': [N_from],
     'new': [M_new], 'default': [M_default], 'with_capacity': [M_with_capacity], 'deref': [M_deref], 'deref_mut': [M_deref], 'borrow': [M_deref], 'borrow_mut': [M_deref],
     'to_vec': [M_to_vec], 'as_slice': [M_as_slice], 'as_mut_slice': [M_as_slice], 'swap': [M_swap], 'drop': [M_drop],
